@@ -51,11 +51,14 @@ Magic == <<71, 84, 73, 82, 66>>
 HeaderBad(r) == Len(r.head) < 8 \/ SubSeq(r.head, 1, 5) # Magic \/ r.head[8] # r.pv
 Header(r) == HeaderBad(r) => r.outcome = "exc:ValueError"
 NoHang(r) == r.outcome # "hang"
+\* a message carrying another version field (0 = absent, e.g. after a truncation) is never accepted
+Version(r) == r.outcome = "ir" => r.version = r.pv
 Coherent(n, r) == r.outcome = "ir" =>
                     CASE n = "Forest" -> Forest(r) [] n = "Cache" -> Cache(r) [] n = "RefKinds" -> RefKinds(r)
                       [] n = "Bytes" -> Bytes(r) [] n = "Resave" -> Resave(r)
 Failing(r) == {n \in {"Forest", "Cache", "RefKinds", "Bytes", "Resave"} : ~Coherent(n, r)}
               \cup (IF Header(r) THEN {} ELSE {"Header"}) \cup (IF NoHang(r) THEN {} ELSE {"NoHang"})
+              \cup (IF Version(r) THEN {} ELSE {"Version"})
 Judge == Failing(Recs[idx]) = {} \/ PrintT(ToJson([bad |-> idx, failing |-> Failing(Recs[idx])]))
 Done == TLCGet("stats").generated >= 0 /\ PrintT(ToJson([judged |-> Len(Recs)]))
 =============================================================================
